@@ -2,6 +2,7 @@
 from __future__ import annotations
 
 import ast
+import re
 
 from ..core import (GRAPH_CLASSES, SHORT, AnalysisError, DefUse, Program,
                     ancestors, call_name, norm, parent)
@@ -227,6 +228,71 @@ def check_slot_cover(prog: Program, res: Result) -> None:
                             instance=inst)
 
 
+def check_compose_merge(prog: Program, res: Result) -> None:
+    res.rule("R-COMPOSE-MERGE", "compose merges the neighbour set of an atom "
+             "with what earlier graphs contributed (in-place update / union "
+             "with the existing entry); overwriting the entry loses the "
+             "bonds of overlapping pieces while the bond table keeps them")
+    seen = set()
+    n = 0
+    for K in GRAPH_CLASSES:
+        for fi in chain_of(prog, K, "compose"):
+            if fi.qual in seen:
+                continue
+            seen.add(fi.qual)
+            for node in ast.walk(fi.node):
+                # X._neighbors[k] = E
+                if isinstance(node, ast.Assign) and len(node.targets) == 1 \
+                        and isinstance(node.targets[0], ast.Subscript) and \
+                        isinstance(node.targets[0].value, ast.Attribute) and \
+                        node.targets[0].value.attr == "_neighbors":
+                    n += 1
+                    recv = norm(node.targets[0].value)
+                    inst = f"{fi.short}: {norm(node, 90)}"
+                    reads_self = any(
+                        norm(x) == recv for x in ast.walk(node.value)
+                        if isinstance(x, ast.Attribute))
+                    if reads_self:
+                        res.ok("R-COMPOSE-MERGE", inst, fi.loc(node))
+                    else:
+                        res.bad("R-COMPOSE-MERGE", inst, fi.loc(node),
+                                f"{fi.short}: `{norm(node, 90)}` replaces the "
+                                "neighbour set collected from earlier graphs")
+                elif isinstance(node, ast.Assign) and any(
+                        isinstance(t, ast.Attribute) and t.attr == "_neighbors"
+                        for t in node.targets):
+                    n += 1
+                    inst = f"{fi.short}: {norm(node, 90)}"
+                    inloop = any(isinstance(a, (ast.For, ast.While))
+                                 for a in ancestors(node))
+                    if inloop:
+                        res.bad("R-COMPOSE-MERGE", inst, fi.loc(node),
+                                f"{fi.short}: `{norm(node, 90)}` rebinds the "
+                                "neighbour table for every graph")
+                    else:
+                        res.ok("R-COMPOSE-MERGE", inst, fi.loc(node))
+                elif isinstance(node, ast.Call) and isinstance(
+                        node.func, ast.Attribute) and node.func.attr in (
+                        "update", "__ior__", "add") and "_neighbors" in norm(
+                        node.func.value):
+                    n += 1
+                    recv = norm(node.func.value)
+                    inst = f"{fi.short}: {norm(node, 90)}"
+                    # X._neighbors.update(other._neighbors) replaces entries
+                    if recv.endswith("._neighbors"):
+                        res.bad("R-COMPOSE-MERGE", inst, fi.loc(node),
+                                f"{fi.short}: `{norm(node, 90)}` replaces "
+                                "whole neighbour sets of overlapping atoms")
+                    elif re.search(r"_neighbors\.setdefault\(\w+, \w+\)$", recv) \
+                            and not recv.endswith("set())"):
+                        res.bad("R-COMPOSE-MERGE", inst, fi.loc(node),
+                                f"{fi.short}: `{norm(node, 90)}` seeds the "
+                                "entry with a set of the source graph")
+                    else:
+                        res.ok("R-COMPOSE-MERGE", inst, fi.loc(node))
+    res.need("R-COMPOSE-MERGE", n, 1, "neighbour stores in compose")
+
+
 def _membership_form(test: ast.AST):
     """Classify a keep-condition over a descriptor's atoms.
     returns (quantifier, handles_none, iter text) or None."""
@@ -434,4 +500,5 @@ def run(prog: Program, res: Result, tier: str) -> None:
     check_one_shot(prog, res)
     check_slot_cover(prog, res)
     check_induced(prog, res)
+    check_compose_merge(prog, res)
     check_components(prog, res)
